@@ -114,6 +114,10 @@ func (pf *RangeProofAlice) Verify(ec elliptic.Curve, pk *paillier.PublicKey, NTi
 	q3 := new(big.Int).Mul(q, q)
 	q3 = new(big.Int).Mul(q, q3)
 
+	// the ciphertext is inverted modulo N^2 below: it must be a unit there (Exp with a negative exponent returns nil otherwise)
+	if !common.IsInInterval(c, pk.NSquare()) || new(big.Int).GCD(nil, nil, c, pk.NSquare()).Cmp(one) != 0 {
+		return false
+	}
 	if !common.IsInInterval(pf.Z, NTilde) {
 		return false
 	}
